@@ -222,5 +222,6 @@ func init() {
 		Assumptions: []string{"both trees have the same configuration (the property's precondition)"},
 		Gen:         genC06,
 		Run:         runC06,
+		Enumerate:   enumWidePairs,
 	})
 }
